@@ -2,7 +2,8 @@ package template
 
 import (
 	"go/types"
-	"strings"
+	"unicode"
+	"unicode/utf8"
 )
 
 // Var represents a method variable/parameter.
@@ -97,7 +98,8 @@ func varName(vr *types.Var, suffix string) string {
 func varNameForType(t types.Type) string {
 	nestedType := func(t types.Type) string {
 		if t, ok := t.(*types.Basic); ok {
-			return deCapitalise(t.String())
+			// Name, not String: unsafe.Pointer prints with its package qualifier.
+			return deCapitalise(t.Name())
 		}
 		return varNameForType(t)
 	}
@@ -164,5 +166,12 @@ func basicTypeVarName(b *types.Basic) string {
 	return "v"
 }
 
-func capitalise(s string) string   { return strings.ToUpper(s[:1]) + s[1:] }
-func deCapitalise(s string) string { return strings.ToLower(s[:1]) + s[1:] }
+func capitalise(s string) string {
+	r, n := utf8.DecodeRuneInString(s)
+	return string(unicode.ToUpper(r)) + s[n:]
+}
+
+func deCapitalise(s string) string {
+	r, n := utf8.DecodeRuneInString(s)
+	return string(unicode.ToLower(r)) + s[n:]
+}
